@@ -72,7 +72,8 @@ class StmtParser(ExprParser):
         while True:
             if self.at_kw('FOR') and self.peek_kw(1, 'UPDATE', 'SHARE'):
                 self.adv()
-                self.adv()
+                if self.adv().u == 'UPDATE':
+                    self.saw_for_update = True
                 if self.accept_kw('OF'):
                     self.ident()
                     while self.accept_op(','):
